@@ -59,7 +59,12 @@ def case_strategy(draw):
     cfg = draw(S.cfgs(modes=("ACK",), transports=("obj",), csums=("CRC_32", "CRC_32C", "MODULAR", "NULL_CHECKSUM")))
     cfg["max_seg"] = draw(st.sampled_from([1, 2, 3, 5, 8]))
     f = draw(S.file_specs(cfg, max_bytes=96, max_segments=12))
-    return {"cfg": cfg, "file": f, "steps": draw(st.lists(step(), min_size=1, max_size=30))}
+    case = {"cfg": cfg, "file": f, "steps": draw(st.lists(step(), min_size=1, max_size=30))}
+    if draw(st.integers(0, 2)) == 0:
+        # optional TLVs of the put request travel in the Metadata PDU; a (0,0) request must bring back the same PDU
+        case["opts"] = draw(S.request_options())
+        case["msgs"] = draw(st.lists(S.user_messages(), max_size=2))
+    return case
 
 
 def _resolve(a, eff, progress, size):
